@@ -156,6 +156,60 @@ DESC3 = {
  'C18_C': ('multi_record_log.rs run_gc_if_necessary / record_empty_queues_position', 'guard clone moved into the position pass', 'a position record straddling two files during a GC triggered by another queue'),
 }
 
+DESC4 = {
+ 'C01_A': ('frame/reader.rs go_to_next_block_if_necessary', 'cursor / block_corrupted reset moved before next_block(): at the end of the last file the cursor is 0 while the block reader still sits on the last block', 'a clean reopen followed by an append (the writer resumes at the START of the last block) and another restart'),
+ 'C01_B': ('mem/queue.rs + mem/queues.rs empty_queues', '"position already recorded" cache: an idle empty queue is not yielded again as long as its position is unchanged', 'an idle empty queue whose only RecordPosition sits in a file that a later GC removes, then a restart'),
+ 'C01_C': ('rolling/directory.rs has_room_for_record + append_records', 'record attributed to the NEXT file when the current one "has no room" (`> HEADER_LEN` where `>=` is meant)', 'an append starting with exactly 7 bytes left in a WAL file, a truncate that frees that file, a restart'),
+ 'C02_A': ('rolling/directory.rs RollingReader::next_block', 'self.file / file_number / block_id assigned before the first block of the next file was read', 'a crash leaving an empty trailing WAL file, recovery, an append, another restart'),
+ 'C02_B': ('multi_record_log.rs persist / write_record helper', '"skip redundant persist" field reset by a write helper that delete_queue does not go through', 'create/append persisted, delete_queue, crash: the DeleteQueue entry is still buffered'),
+ 'C02_C': ('frame/reader.rs read_frame_header', 'cursor += HEADER_LEN moved before the header validity check: an undecodable header is consumed too', 'a torn header at the end of the log, recovery (the writer resumes 7 bytes too far), append, restart'),
+ 'C03_A': ('mem/queue.rs + record_empty_queues_position', 'an empty queue whose position is on record in a file newer than the oldest is not recorded again', 'a GC that removes several files at once, including the one holding the only RecordPosition of an idle queue'),
+ 'C03_B': ('rolling/directory.rs RollingWriter synced flag', '`synced` flag set by the roll-over fsync stays set for the frame that caused the roll-over', 'an entry whose last frame rolls over to a new file, persist(FlushAndFsync), power loss'),
+ 'C03_C': ('multi_record_log.rs truncate / delete_queue / run_gc_if_necessary', 'persist moved in front of the GC, the unconditional pre-GC fsync dropped as redundant', 'DoNothing / OnDelay policy, truncate freeing a file, crash: the Truncate entry and earlier appends are still buffered'),
+ 'C04_A': ('mem/queues.rs truncate', 'fast path `Some(0)` when the queue holds no record: truncate_head (which moves an empty queue forward) is skipped', 'truncate of an empty queue beyond its end, then an automatic-position append (live or after a restart)'),
+ 'C04_B': ('multi_record_log.rs record_empty_queues_position', 'skip the position pass when "already recorded in the current file", the file number being sampled AFTER the writes', 'position records straddling a file boundary, a later GC removing the first of the two files, restart'),
+ 'C04_C': ('rolling/directory.rs RollingWriter flushed_offset', 'persist(Flush) returns early when offset == flushed_offset; roll-over resets offset but not flushed_offset', 'bytes written since the last persist adding up to exactly one WAL file, then a process crash'),
+ 'C06_A': ('mem/queue.rs first_file cache', 'cached FileNumber clone of the oldest retained record refreshed only when the last evicted record carries a file marker', 'one truncate evicting past a file marker and stopping in the middle of a later file: the old file stays pinned'),
+ 'C06_B': ('rolling/directory.rs Directory::open latest_contiguous_run', 'only the run of consecutive numbers ending at the newest file is tracked', 'a hole in the file numbers (interrupted GC): the files before it are neither replayed nor ever removed'),
+ 'C06_C': ('multi_record_log.rs open_with_prefs', 'a clone of the first FileNumber kept in a local for logging lives across the recovery-time GC', 'a reopen with several files whose oldest is reclaimable: nothing is reclaimed at open'),
+ 'C07_A': ('frame/reader.rs into_writer resume_cursor', 'the writer resumes at the next block when `<= HEADER_LEN` bytes are left (`<` is what writer and reader use)', 'a log ending with exactly 7 bytes left in a block, reopen, append, reopen'),
+ 'C07_B': ('frame/header.rs is_unwritten + get_frame_header', 'end-of-log test looks at the 4 checksum bytes only', 'a frame whose CRC32 is 0 (forged payload): it and everything after it is taken for unwritten space'),
+ 'C07_C': ('rolling/directory.rs RollingReader::next_block', 'block_id += 1 before knowing a block was read', 'a log whose last entry leaves 1..6 bytes at the end of the last block of a file, reopen, append'),
+ 'C08_A': ('frame/reader.rs next_frame_header helper', 'an undecodable header makes the reader continue with the next block without reporting Corruption', 'an invalid frame-type byte while a multi-frame entry is open: frames before and after the block are glued'),
+ 'C08_B': ('recordlog/reader.rs corruption_reported flag', 'further Corruptions are swallowed (continue, before within_record = false) until a record completes', 'two damaged frames, the second in the middle of the next multi-frame entry'),
+ 'C08_C': ('frame/reader.rs read_frame at_end_of_written_data', 'a CRC failure is skipped silently when "nothing follows", which is also true at every block end', 'CRC damage in a First/Middle frame that reaches the end of its block'),
+ 'C09_A': ('recordlog/reader.rs skip_to_end_of_record', 'on Corruption inside an entry, frames are consumed up to the next Last frame', 'damage in the LAST fragment of a multi-block entry: the next (undamaged) entry is eaten'),
+ 'C09_B': ('frame/reader.rs last_frame_type / can_follow_last_frame', 'fragment-sequence validation whose state is updated on the success path only: an orphan-looking fragment quarantines its block', 'CRC damage in a First fragment: the block of the following Last fragment is dropped with the entries it holds'),
+ 'C09_C': ('multi_record_log.rs open_with_prefs replay', 'RecordPosition ignored for a queue replay already knows', 'payload damage on a DeleteQueue entry followed by a re-creation of the queue'),
+ 'C10_A': ('frame/reader.rs read_frame', 'frame-fits test done before the cursor moves past the header (7 bytes too generous)', 'a damaged 16-bit length in the 7-value window at the end of a block with a valid type byte'),
+ 'C10_B': ('rolling/directory.rs filename_to_position digits_to_position', 'parse::<u64>().ok() replaced by a hand-rolled digit fold', 'a stray regular file `wal-` + 20 digits above u64::MAX'),
+ 'C10_C': ('record.rs deserialize + open replay loop', 'lazy validation (new_unchecked) at decode and `continue` on a bad item in replay', 'a CRC-valid AppendRecords entry with a cut-short batch at a particular alignment: next() re-yields the error forever'),
+ 'C11_A': ('rolling/directory.rs open_file / roll-over', 'open_file gains create(true) (shared with the roll-over)', 'a listed WAL file vanishing before recovery reaches it: re-created empty and skipped'),
+ 'C11_B': ('frame/reader.rs exhausted + recordlog/reader.rs go_next', 'sticky end-of-log flag set before next_block()? + I/O error inside an entry reported as Corruption', 'an I/O failure while an entry straddling a block/file boundary is being assembled'),
+ 'C11_C': ('multi_record_log.rs open_with_prefs io_grace_period_is_over', 'grace-period retry of replay I/O errors whose timestamp is reset on every call (Option::insert)', 'any persistent I/O error on a WAL file during replay: open retries forever'),
+ 'C12_A': ('mem/queues.rs replay_record + open_with_prefs', 'at replay a record below the next position is skipped as "already known" instead of aborting', 'damage on adjacent DeleteQueue and RecordPosition frames of a deleted-and-recreated queue'),
+ 'C12_B': ('multi_record_log.rs append_records append_chunk', 'a batch is written as one WAL entry per 4096 payloads', 'a batch of more than 4096 records and a crash before its end reaches the disk'),
+ 'C12_C': ('record.rs MultiRecord::next', 'the "declared length larger than the rest" branch returns None instead of Some(Err)', 'damage + later crash leaving a stale Last fragment after a new First: the batch is cut to its valid prefix'),
+ 'C13_A': ('record.rs is_empty_batch + append_records', 'empty-batch test done before serialisation through size_hint().1 == Some(0)', 'an empty batch from an iterator with an inexact hint (filter, flat_map)'),
+ 'C13_B': ('mem/queue.rs is_last_position + append_records', 'retry/past classification through record_metas.last() (loses the start_position fallback)', 'a fully truncated queue and an append with an explicit position at or below the old last one'),
+ 'C13_C': ('multi_record_log.rs truncate', 'queue_exists pre-check replaced by .ok_or(MissingQueue)? on the in-memory result, after the WAL write', 'a truncate on a missing queue followed by a flush'),
+ 'C14_A': ('multi_record_log.rs truncate / persist_on_policy', 'GC runs only when persist_on_policy actually persisted', 'DoNothing / OnDelay, a roll-over, a truncate freeing the first files: files and disk_used_bytes differ from Always'),
+ 'C14_B': ('persist_policy.rs update_persisted', 'next deadline = now + (interval - overshoot): Duration subtraction underflows', 'OnDelay and an idle gap longer than twice the interval: the call panics'),
+ 'C14_C': ('rolling/directory.rs persist / roll_over', 'persist(FlushAndFsync) rolls over right away when the file is exactly full', 'an append ending exactly on the last byte of a WAL file under an fsync policy vs a lazy one'),
+ 'C15_A': ('frame/writer.rs pad_block_if_needed', 'padding helper writes padding[..remaining] but returns padding.len()', 'an entry starting with 1..6 bytes left in the block'),
+ 'C15_B': ('recordlog/writer.rs write_record num_padding_bytes', 'write_frame return value ignored, count recomputed with a padding predictor off by one case', 'an entry starting with exactly 7 bytes left in the block'),
+ 'C15_C': ('multi_record_log.rs gc_wal_bytes_written field', 'GC bytes accumulated in a field drained by truncate / delete_queue but not by open', 'a recovery-time GC that writes position entries, then the first truncate of the session'),
+ 'C16_A': ('mem/queue.rs size / num_records', 'per-record overhead multiplied by the position span instead of the number of records', 'an append with an explicit position beyond the next one (a gap)'),
+ 'C16_B': ('mem/queues.rs size / names_size', 'queue names counted with chars().count()', 'queue names with multi-byte characters'),
+ 'C16_C': ('multi_record_log.rs memory_usage_cache', 'Cell cache of the memory figures reset at the end of each mutating call, i.e. not on an early error exit', 'resource_usage, then a truncate whose GC fails with an I/O error, then resource_usage'),
+ 'C17_A': ('rolling/directory.rs open_or_create_sized_file', 'the next file is opened with create(true) instead of create_new(true)', 'a foreign (e.g. symlink) entry carrying the name of the next WAL file at roll-over'),
+ 'C17_B': ('rolling/file_number.rs from_file_numbers file_number_bounds', 'tracker rebuilt as the dense range min..=max of the scanned numbers', 'a gap in the numbering plus a non-regular entry named like a missing number'),
+ 'C17_C': ('rolling/directory.rs Directory::open remove_empty_leftover', 'empty regular files are deleted during the scan, before the name was parsed', 'an empty non-WAL regular file (.gitkeep, a lock file) in the directory'),
+ 'C18_A': ('mem/queues.rs num_empty_queues counter', 'the empty-queue scan is skipped when a counter says no queue is empty; delete_queue decrements it for non-empty queues too', 'delete_queue of a non-empty queue while another queue is the only empty one, GC, restart'),
+ 'C18_B': ('multi_record_log.rs run_gc_if_necessary', 'the two fsyncs of the GC pass merged into `if bytes_written > 0 { fsync }`', 'lazy policy, a GC at a moment when no queue is empty, crash: another queue\'s buffered records are lost with the deleted file'),
+ 'C18_C': ('record.rs serialize clamp_queue_name', 'the assert on the name length replaced by cutting the name to its 65535-byte prefix in the WAL', 'a queue whose oversized name starts with another queue\'s maximal-length name, restart'),
+}
+
 
 ROUND = os.environ.get('SEED_ROUND', '1')
 
@@ -166,6 +220,8 @@ def main():
         DESC = DESC2
     if ROUND == '3':
         DESC = DESC3
+    if ROUND == '4':
+        DESC = DESC4
     out_root = os.path.join(VERIF, 'seeded')
     os.makedirs(out_root, exist_ok=True)
     work = os.path.join(VERIF, '.work')
@@ -175,8 +231,8 @@ def main():
         pid, x = key.split('_')
         src = os.path.join(SRC, pid, x)
         vs = os.path.join(VS, '%s_%s.json' % (pid, x))
-        if ROUND == '3' and not os.path.exists(vs):
-            vs = os.path.join(VS, 'r3_%s_%s.json' % (pid, x))
+        if ROUND in ('3', '4') and os.path.exists(os.path.join(VS, 'r%s_%s_%s.json' % (ROUND, pid, x))):
+            vs = os.path.join(VS, 'r%s_%s_%s.json' % (ROUND, pid, x))
         if not os.path.isdir(src) or not os.path.exists(vs):
             print('skip (not verified yet):', key)
             continue
